@@ -49,6 +49,21 @@ theorem coolStencil_eq_col1D (Nz : Nat) (fo Tb Tt : ℝ) (col : Nat → ℝ) (i 
       simp [h0, hl, h1 i hi, h1 (i + 1) h3, h1 (i - 1) h4]
 
 
+/-- `Snow.coolStencil` on an arbitrary array (size ≥ 2) is `col1D` of its reader -/
+theorem coolStencil_get (fo Tb Tt : ℝ) (T : Array ℝ) (hN : 2 ≤ T.size) (i : Nat) (hi : i < T.size) :
+    aget (coolStencil fo Tb Tt T) i = col1D T.size fo Tb Tt (aget T) i := by
+  unfold coolStencil col1D
+  rw [aget_ofFn _ i hi]
+  simp only [ofNat'_real, Nat.cast_ofNat]
+  by_cases h0 : i = 0
+  · subst h0; simp
+  · by_cases hl : i + 1 = T.size
+    · simp [h0, hl]
+    · simp [h0, hl]
+
+theorem coolStencil_size (fo Tb Tt : ℝ) (T : Array ℝ) : (coolStencil fo Tb Tt T).size = T.size := by
+  simp [coolStencil]
+
 /-- the column extended by its two ghost values: `e 0 = Tb`, `e (k+1) = col k`, `e (Nz+1) = Tt` -/
 noncomputable def ext (Nz : Nat) (Tb Tt : ℝ) (col : Nat → ℝ) : Nat → ℝ
   | 0 => Tb
@@ -259,5 +274,38 @@ theorem solidStep1D_eq_solid1D (p : SnowIn ℝ) (g : Grid1D ℝ) (stride iEnd : 
     · have hjp : j + 1 < g.Nz := by omega
       have hjm : j - 1 < g.Nz := by omega
       simp only [hz, hl, if_false, hlam (j + 1) hjp, hlam (j - 1) hjm]
+
+/-! ### the 1D cooling step of the model (`coolField1D`): its ghost values and fluxes -/
+
+/-- no evaporative flux unless the configuration is VISF -/
+theorem qEvap_none (p : SnowIn ℝ) (pv : ℝ → ℝ) (t Ttop : ℝ) (h : p.visf = none) :
+    Snow.qEvap p pv t Ttop = 0 := by
+  simp [Snow.qEvap, h]
+
+/-- … and none outside the vacuum window -/
+theorem qEvap_outside (p : SnowIn ℝ) (v : Visf ℝ) (pv : ℝ → ℝ) (t Ttop : ℝ) (h : p.visf = some v)
+    (hout : ¬ (v.t_vac_start * 3600 < t ∧ t < (v.t_vac_start + v.t_vac_duration) * 3600)) :
+    Snow.qEvap p pv t Ttop = 0 := by
+  simp only [Snow.qEvap, h, ofNat'_real, Nat.cast_ofNat]
+  rw [if_neg hout]; simp
+
+/-- the temperature update of the model's 1D cooling step is the stencil `col1D` with
+`fo = g.fo`, the shelf ghost value `T₀ + K_shelf (T_sh − T₀) dz/λ` and the top ghost value
+`T_top + q_e dz/λ`, `q_e = qEvap` (liquid-surface law, zero outside VISF / the vacuum window) -/
+theorem coolField1D_get (p : SnowIn ℝ) (g : Grid1D ℝ) (i : Nat) (T : Array ℝ) (Tsh : ℝ)
+    (hN : 2 ≤ T.size) (j : Nat) (hj : j < T.size) :
+    aget (coolField1D p g i T Tsh) j
+      = col1D T.size g.fo (aget T 0 + (p.Kshelf * (Tsh - aget T 0)) * g.dz / g.lam0)
+          (aget T (g.Nz - 1)
+            + Snow.qEvap p Evap.vapourPressureLiquid (g.dt * (i : ℝ)) (aget T (g.Nz - 1)) * g.dz / g.lam0)
+          (aget T) j := by
+  unfold coolField1D
+  simp only [ofNat'_real]
+  exact coolStencil_get _ _ _ T hN j hj
+
+/-- `fo` of the grid the code builds: `λ/(c_p ρ) · dt/dz²` -/
+theorem grid1D_fo (p : SnowIn ℝ) (Nz : Nat) :
+    (grid1D p Nz).fo = ((grid1D p Nz).lam0 / (p.const.cp_solution * p.const.rho_l)) * (grid1D p Nz).dt
+      / ((grid1D p Nz).dz * (grid1D p Nz).dz) := rfl
 
 end Snow.Stencil1D
